@@ -272,6 +272,11 @@ Proof.
     simpl in Hnd. inversion Hnd as [|? ? Hnot Hnd']; subst.
     assert (Hrest : forall i', In i' r -> id_name i' <> id_name i).
     { intros i' Hi' E. apply Hnot. rewrite <- E. apply in_map; auto. }
+    assert (Hex : existsb (fun t' => N.eqb (tp_name t') (id_name i)) (map itp r) = false).
+    { apply Bool.not_true_is_false. intros Hc. apply existsb_exists in Hc. destruct Hc as (t' & Ht' & He).
+      apply in_map_iff in Ht'. destruct Ht' as (i' & Ei' & Hi'). subst t'. rewrite tp_name_itp in He.
+      apply N.eqb_eq in He. apply (Hrest i' Hi'); auto. }
+    rewrite Hex.
     destruct (lookup (id_name i) tbl) as [v|] eqn:El.
     + (* an input *)
       assert (Hinp : id_input i = true).
